@@ -3,11 +3,12 @@
 # (private copy of /verif, scratch worktree with the change applied) and record the result in meta.json as final_*.
 ID="$1"; V="$2"
 export GOFLAGS=-mod=mod GOPROXY=off GOSUMDB=off GOTOOLCHAIN=local
-OUT=/verif/seeded/$ID-$V; WT=/tmp/seed/$ID
+ROOT="${SEEDROOT:-/tmp/seed}"; TAG="${SEEDTAG:-}"
+OUT=/verif/seeded/$ID-$TAG$V; WT=$ROOT/$ID
 [ -f "$OUT/patch.diff" ] || { echo "$ID/$V: not confirmed yet"; exit 2; }
 cd "$WT" || exit 2
 git checkout -q --detach "$(git -C /repo rev-parse HEAD)" 2>/dev/null; git checkout -q -- . ; git clean -fdq
-VS=/tmp/verif-seed-$ID
+VS=/tmp/verif-seed$TAG-$ID
 mkdir -p $VS && rsync -a --delete --exclude build --exclude bin --exclude findings --exclude .git --exclude seeded /verif/ $VS/
 git apply "$OUT/patch.diff" || { echo "$ID/$V: patch does not apply"; exit 2; }
 (cd $VS && VERIF_REPO="$WT" timeout 1500 ./check $ID quick) > "$OUT/check_final.log" 2>&1; RC=$?
